@@ -26,7 +26,7 @@ RULE = ('enum: case = (program shape, scope); non-trivial = distinct (program, s
         'scopes analysed; traces = scopes compared with symtable')
 ASSUMPTIONS = ['programs are generated so that every scope starts on its own line (scope matching by kind+line)',
                'type parameter scopes (PEP 695) are outside the generated alphabet']
-BOUNDS = {'quick': 'all shapes of depth <= 3 over 6 scope kinds (258 programs) + 14 hand-written construct programs; every scope',
+BOUNDS = {'quick': 'all shapes of depth <= 3 over 6 scope kinds (258 programs), again with the nested expression scope placed directly as first / second iterable of its comprehension, + 14 hand-written construct programs; every scope',
           'thorough': '8 scope kinds, depth <= 3 (584 programs) with two soup variants'}
 
 EXPR_KINDS = ('lambda', 'listcomp', 'genexp', 'setcomp', 'dictcomp')
@@ -98,19 +98,28 @@ def render(kinds, d=0, ctx=None):
         inner = {'fn': ctx['fn'], 'cls_nearest': False, 'lam': True}
         ch = child(inner, False)
         return 'expr', [f'lambda lp{s}, lq{s}=ldq{s}, *la{s}, lk{s}=ldk{s}, **lkw{s}: (lp{s}, lfr{s}, {up},'] + indent(ch) + [')']
-    # comprehensions
+    # comprehensions; ctx['pos'] says where a nested expression scope sits: in the element (default), directly as the first
+    # iterable (evaluated in the *enclosing* scope) or directly as the second iterable (inside the comprehension scope)
     inner = dict(ctx)
+    pos = ctx.get('pos', 'elt') if rest else 'elt'
+    if pos != 'elt':
+        inner['no_walrus'] = True  # ':=' is not allowed anywhere inside a comprehension iterable expression
     ch = child(inner, False)
-    walrus = '' if ctx.get('cls_nearest') else f'(cw{s} := e{s}), '
-    tail = [f'for e{s} in (cit{s}, {up})', f'if cc{s}', f'for e2{s} in e{s} if (e2{s}, cfr2{s})']
+    walrus = '' if ctx.get('cls_nearest') or ctx.get('no_walrus') else f'(cw{s} := e{s}), '
+    it0, it1 = [f'for e{s} in (cit{s}, {up})'], [f'for e2{s} in e{s} if (e2{s}, cfr2{s})']
+    if pos == 'iter0':
+        it0, ch = [f'for e{s} in'] + indent(ch), ['0']
+    elif pos == 'iter1':
+        it1, ch = [f'for e2{s} in'] + indent(ch) + [f'if (e2{s}, cfr2{s})'], ['0']
+    tail = it0 + [f'if cc{s}'] + it1
     if k == 'dictcomp':
         return 'expr', ['{'] + indent([f'ek{s}: (e{s}, {walrus}cfr{s},'] + indent(ch) + [')'] + tail) + ['}']
     o, c = {'listcomp': '[]', 'setcomp': '{}', 'genexp': '()'}[k]
     return 'expr', [o] + indent([f'(e{s}, {walrus}cfr{s},'] + indent(ch) + [')'] + tail) + [c]
 
 
-def program(kinds):
-    typ, lines = render(kinds)
+def program(kinds, pos='elt'):
+    typ, lines = render(kinds, 0, {'fn': None, 'cls_nearest': False, 'pos': pos})
     head = ['modv = 1', 'import modimp']
     if typ == 'stmt':
         return '\n'.join(head + lines + ['tailv = modv'])
@@ -369,6 +378,10 @@ def shards(tier):
         ('def', 'asyncdef', 'class', 'lambda', 'listcomp', 'setcomp', 'genexp', 'dictcomp')
     sh = list(shapes(kinds, 3))
     out = [{'shapes': [list(s) for s in sh[i:i + 8]]} for i in range(0, len(sh), 8)]
+    comps = ('listcomp', 'genexp', 'setcomp', 'dictcomp')
+    shp = [s for s in sh if any(a in comps for a in s[:-1])]  # a comprehension with a nested expression scope
+    for pos in ('iter0', 'iter1'):
+        out += [{'shapes': [list(s) for s in shp[i:i + 8]], 'pos': pos} for i in range(0, len(shp), 8)]
     out.append({'hand': True})
     return out
 
@@ -379,10 +392,11 @@ def run_shard(desc, tier, res):
         for i, src in enumerate(HAND):
             check_program(fst, src, f'C16/hand{i}/', res, {'hand': i})
         return
+    pos = desc.get('pos', 'elt')
     for kinds in desc['shapes']:
-        src = program(tuple(kinds))
-        check_program(fst, src, 'C16/' + '>'.join(kinds) + '/', res, {'kinds': kinds})
-    res.sample({'shape': desc['shapes'][0], 'program': program(tuple(desc['shapes'][0]))[:400]})
+        src = program(tuple(kinds), pos)
+        check_program(fst, src, 'C16/' + '>'.join(kinds) + ('' if pos == 'elt' else '@' + pos) + '/', res, {'kinds': kinds, 'pos': pos})
+    res.sample({'shape': desc['shapes'][0], 'pos': pos, 'program': program(tuple(desc['shapes'][0]), pos)[:400]})
 
 
 def replay(rep, res):
@@ -390,6 +404,6 @@ def replay(rep, res):
     if 'hand' in rep:
         check_program(fst, HAND[rep['hand']], 'replay/', res, rep)
     else:
-        src = program(tuple(rep['kinds']))
+        src = program(tuple(rep['kinds']), rep.get('pos', 'elt'))
         print(src)
         check_program(fst, src, 'replay/', res, rep)
